@@ -44,17 +44,90 @@ let () =
   try
     while true do
       let line = input_line stdin in
-      let is_x = String.length line > 0 && line.[0] = 'X' in
-      let line = if is_x then String.sub line 1 (String.length line - 1) else line in
+      let tag = if String.length line > 0 && (match line.[0] with 'X' | 'F' | 'K' | 'V' -> true | _ -> false)
+                then line.[0] else ' ' in
+      let is_x = tag = 'X' in
+      let line = if tag <> ' ' then String.sub line 1 (String.length line - 1) else line in
       let toks = Array.of_list (List.map int_of_string
                    (List.filter (fun s -> s <> "") (String.split_on_char ' ' line))) in
       let i = ref 0 in
       let next () = let v = toks.(!i) in incr i; v in
       let lst () = let n = next () in List.init n (fun _ -> nat_of_int (next ())) in
       let opt () = let v = next () in if v < 0 then None else Some (nat_of_int v) in
-      let p = lst () in let q = lst () in let k = lst () in let d = lst () in
-      let va = opt () in let kw = opt () in
-      let s = { posonly = p; pos_or_kw = q; kwonly = k; defaults = d; varargs = va; kwargs = kw } in
+      let read_sig () =
+        let p = lst () in let q = lst () in let k = lst () in let d = lst () in
+        let va = opt () in let kw = opt () in
+        { posonly = p; pos_or_kw = q; kwonly = k; defaults = d; varargs = va; kwargs = kw } in
+      let argname k = nat_of_int (14 + int_of_nat k) in
+      let vals s d = String.concat "," (List.map (fun p ->
+                       match (let rec g = function [] -> None | (k, v) :: t -> if k = p then Some v else g t in g d) with
+                       | Some v -> value v | None -> "-") (all_names s)) in
+      if tag = 'K' then begin
+        (* K-lines (constructors):  nclasses {0 | 1 <sig>}{0 | 1 <sig>} per class (its __new__, its __init__), most
+           derived first;  npos  nkws kws..   Output: <wf> TAB <ctor_py, code before fix> TAB <ctor_py> TAB <ctor_c>;
+           a result is E:<kind>:<names> / E:noargs: or O:<__new__ locals>|<__init__ locals> (- = not run) *)
+        let nc = next () in
+        let osig () = if next () = 1 then Some (read_sig ()) else None in
+        let m = List.init nc (fun _ -> let n = osig () in let it = osig () in { c_new = n; c_init = it }) in
+        let np = nat_of_int (next ()) in
+        let ks = lst () in
+        let sh = { npos = np; kws = ks } in
+        let rec look sel = function [] -> None | k :: t -> (match sel k with Some s -> Some s | None -> look sel t) in
+        let sn = look (fun k -> k.c_new) m and si = look (fun k -> k.c_init) m in
+        let part os od = match os, od with Some s, Some d -> vals s d | _ -> "-" in
+        let okr dn di = "O:" ^ part sn dn ^ "|" ^ part si di in
+        let pyr = function
+          | CtorErr e -> py { posonly = []; pos_or_kw = []; kwonly = []; defaults = []; varargs = None; kwargs = None } (Err e)
+          | CtorOk (dn, di) -> okr dn di in
+        let cr = function
+          | CtorErr (CBind e) -> c { posonly = []; pos_or_kw = []; kwonly = []; defaults = []; varargs = None; kwargs = None } (Err e)
+          | CtorErr CNoArguments -> "E:noargs:"
+          | CtorOk (dn, di) -> okr dn di in
+        let wfs = List.for_all (fun k -> (match k.c_new with Some s -> wf_sigb s | None -> true)
+                                         && (match k.c_init with Some s -> wf_sigb s | None -> true)) m in
+        let wf = if wfs && nodupb ks then "1" else "0" in
+        print_endline (String.concat "\t" [wf; pyr (ctor_py bind_py argname m sh); pyr (ctor_py bind_py_fixed argname m sh);
+                                           cr (ctor_c m sh)])
+      end else if tag = 'V' then begin
+        (* V-lines (overloaded stub function):  nsigs <sig>..  npos  nkws kws..  va_annotated
+           Output: <wf> TAB <call_overloaded bind_pytd>: E:<kind>:<names> or O:<0/1 per signature: matched> *)
+        let ns = next () in
+        let sigs = List.init ns (fun _ -> read_sig ()) in
+        let np = nat_of_int (next ()) in
+        let ks = lst () in
+        let sh = { npos = np; kws = ks } in
+        let va_annot = next () = 1 in
+        let wf = if List.for_all wf_sigb sigs && nodupb ks then "1" else "0" in
+        let dummy = { posonly = []; pos_or_kw = []; kwonly = []; defaults = []; varargs = None; kwargs = None } in
+        let r = match call_overloaded (bind_pytd va_annot argname) sigs sh with
+          | OvErr e -> py dummy (Err e)
+          | OvRaiseNone -> "E:none:"
+          | OvOk matched ->
+            let rec walk ss ms = match ss with
+              | [] -> ""
+              | s :: t -> (match ms with
+                           | (s', _) :: mt when s' = s -> "1" ^ walk t mt
+                           | _ -> "0" ^ walk t ms) in
+            "O:" ^ walk sigs matched in
+        print_endline (String.concat "\t" [wf; r])
+      end else
+      let s = read_sig () in
+      if tag = 'F' then begin
+        (* F-lines (call forms):  <sig> form(0..7, the constructors of FormsModel.form in order)  npos  nkws kws..  va_annotated
+           Output: <wf> TAB <call_form_py bind_py> TAB <call_form_py bind_py_fixed> TAB <call_form_c> TAB <call_form_py bind_pytd> *)
+        let f = match next () with
+          | 0 -> FFunction | 1 -> FInstanceMethod | 2 -> FThroughClass | 3 -> FClassmethodOnClass
+          | 4 -> FClassmethodOnInstance | 5 -> FStaticOnClass | 6 -> FStaticOnInstance | _ -> FCallableInstance in
+        let np = nat_of_int (next ()) in
+        let ks = lst () in
+        let sh = { npos = np; kws = ks } in
+        let va_annot = next () = 1 in
+        let wf = if wf_sigb s && nodupb ks then "1" else "0" in
+        print_endline (String.concat "\t" [wf; py s (call_form_py argcount_src bind_py f s sh);
+                                           py s (call_form_py argcount_src bind_py_fixed f s sh);
+                                           c s (call_form_c f s sh);
+                                           py s (call_form_py argcount_pytd (bind_pytd va_annot argname) f s sh)])
+      end else
       if is_x then begin
         (* X-lines (call sites with splats):  <sig> xnpos  nitems item..  nkws kws..  opaque  frames
            item: 0 plain argument, 1 indefinite splat, 2+n splat of a concrete tuple/list of n elements;
